@@ -7,7 +7,30 @@
 #include <iterator>
 using namespace vf;
 static Stats st;
-
+// H5: Slot::finalise decides two comparisons on scaled positions (attached slot without advance left of 0?  cluster minimum left of
+// the cluster start?).  The scale part records the outcome of every such decision in the final positioning of the design-unit run and
+// of the scaled run; when the same decision comes out differently although the scaled operands differ by no more than the rounding
+// tolerance, the design-unit layout sits exactly on that discontinuity: such divergences are keyed separately (known finding KF-C15-2).
+struct FinDec { int site; bool lt; double gap; };
+static std::vector<FinDec> g_dec[2];
+static long g_tie_calls = 0;
+extern "C" void gr_verif_finalise_test(const void *, const void *, int site, float value, float threshold, float jump, int with_font) {
+    ++g_tie_calls;
+    if (site == 1 && jump == 0.f) threshold = value;           // equal operands give the same layout either way: never a flip
+    g_dec[with_font ? 1 : 0].push_back({site, value < threshold, std::fabs(double(value) - double(threshold))});
+}
+// smallest operand gap among the decisions of the scaled run that came out differently from the design-unit run (1e30: none)
+static double flipped_gap() {
+    const std::vector<FinDec> &A = g_dec[0], &B = g_dec[1];
+    if (B.empty() || A.size() < B.size()) return 1e30;
+    size_t off = A.size() - B.size();                          // the final positioning is the last thing gr_make_seg does
+    double g = 1e30;
+    for (size_t i = 0; i < B.size(); ++i) {
+        if (A[off + i].site != B[i].site) return 1e30;
+        if (A[off + i].lt != B[i].lt) g = std::min(g, B[i].gap);
+    }
+    return g;
+}
 struct CaseParams {
     std::vector<uint32_t> text;
     int enc, dir, fmode;
@@ -145,9 +168,17 @@ int main(int argc, char **argv) {
             CaseParams c = draw(r, f, rep, lines);
             if (c.ppm <= 0) c.ppm = 12.0f;
             if (r.chance(0.03)) c.ppm = float(upem);        // s = 1 sanity point
+            if (a.geti("fixdir", -1) >= 0 && !lines.empty()) {
+                // witness replay: case k = line k of --texts as it stands, given direction and size, default features
+                c = CaseParams();
+                c.text = lines[size_t(k) % lines.size()];
+                c.enc = 2; c.dir = int(a.geti("fixdir", 0)); c.fmode = 0; c.lang = 0; c.ppm = float(a.geti("fixppm", 12));
+            }
             set_case(k, "scale font=%s enc=%d dir=%d ppm=%.9g fmode=%d text=%s", fontpath.c_str(), 1 << c.enc, c.dir, c.ppm, c.fmode, cps_str(c.text, 20).c_str());
             gr_font *font = LIB(gr_make_font(c.ppm, f));
+            g_dec[0].clear(); g_dec[1].clear();
             gr_segment *A = shape(f, nullptr, c), *B = shape(f, font, c);
+            const double fgap = flipped_gap();
             st.add("pairs");
             if ((A == nullptr) != (B == nullptr)) V("null-differs", "font=NULL gives %s, ppm=%g gives %s", A ? "a segment" : "NULL", c.ppm, B ? "a segment" : "NULL");
             else if (A) {
@@ -193,6 +224,7 @@ int main(int argc, char **argv) {
                         double err = std::fabs(bv - double(s) * av);
                         bool isdeep = idx >= 0 && size_t(idx) < deep.size() && deep[size_t(idx)];
                         if (isdeep) { if (err > tol) V(fmt("scale:%s:beyond-attachment-depth-100", what).c_str(), "slot %d lies deeper than 100 in the child/sibling recursion of finalise(): design %.9g, pixel %.9g", idx, av, bv); else st.add("deep_slots_ok"); return; }
+                        if (err > tol && fgap <= tol) { V(fmt("scale:%s:finalise-tie", what).c_str(), "slot %d: design %.9g x %.9g = %.9g but pixel value %.9g; a finalise() comparison came out differently in the scaled run on operands only %.3g apart", idx, av, double(s), double(s) * av, bv, fgap); return; }
                         if (tol > 0) worst = std::max(worst, err / tol);
                         if (err > tol) V(fmt("scale:%s", what).c_str(), "slot %d: design %.9g x %.9g = %.9g but pixel value %.9g (error %.3g > tol %.3g)", idx, av, double(s), double(s) * av, bv, err, tol);
                     };
@@ -208,6 +240,8 @@ int main(int argc, char **argv) {
                     cmp("seg-advance-x", -1, gr_seg_advance_X(A), gr_seg_advance_X(B));
                     cmp("seg-advance-y", -1, gr_seg_advance_Y(A), gr_seg_advance_Y(B));
                     st.add("slot_comparisons", double(ns));
+                    if (fgap <= tol) st.add("pairs_with_a_flipped_finalise_decision");
+                    st.add("finalise_decisions_compared", double(g_dec[1].size()));
                     if (ns >= 2 && std::fabs(double(s) - 1.0) > 1e-3 && gr_seg_advance_X(A) != 0) st.add("nontrivial");
                 }
             }
@@ -217,6 +251,7 @@ int main(int argc, char **argv) {
             if (k % 499 == 0) printf("X {\"part\":\"scale\",\"font\":%s,\"text\":\"%s\",\"dir\":%d,\"ppm\":%.6g}\n", jstr(fontpath.substr(fontpath.rfind('/') + 1)).c_str(), cps_str(c.text, 12).c_str(), c.dir, c.ppm);
         }
         st.mx("max_error_over_tolerance_x1e6", worst * 1e6);
+        st.add("finalise_tests_seen", double(g_tie_calls));
         LIBV(gr_face_destroy(f));
     } else if (part == "hashes") {
         // one line per case: hash of the canonical dump; the orchestrator runs two builds (e.g. direct- and call-threaded
@@ -242,6 +277,7 @@ int main(int argc, char **argv) {
     } else if (part == "pair") {
         std::string font2 = a.get("font2");
         unsigned opt = unsigned(a.geti("opt", 0));
+        { std::vector<uint8_t> probe; if (!read_file(fontpath, probe) || !read_file(font2, probe)) internal_fail("pair: font file missing (%s / %s)", fontpath.c_str(), font2.c_str()); }
         gr_face *f1 = LIB(gr_make_file_face(fontpath.c_str(), opt)), *f2 = LIB(gr_make_file_face(font2.c_str(), opt));
         set_case(-1, "pair %s vs %s", fontpath.c_str(), font2.c_str());
         if (!f1) { st.add("fonts_not_loaded"); if (f2) { V("pair:load", "%s loads but %s does not", font2.c_str(), fontpath.c_str()); LIBV(gr_face_destroy(f2)); } st.print(); return 0; }
